@@ -51,6 +51,11 @@ def run(ctx, rep):
     r162(ctx, rep)
     r163(ctx, rep)
     r164(ctx, rep)
+    rep.rule("R16.5", "step lengths to the bounds are taken over the components that move towards them (direction-sign masks), so the value reported with a geometry step belongs to the clipped step")
+    from . import c15
+    import types
+    proxy = types.SimpleNamespace(ok=lambda r, t: rep.ok("R16.5", t), bad=lambda r, t: rep.bad("R16.5", t), finding=lambda r, *a, **k: rep.finding("R16.5", *a, **k), rule=rep.rule, obl=rep.obl)
+    c15.r159(ctx, proxy)
 
 
 def r161(ctx, rep):
